@@ -59,6 +59,7 @@ def run(ctx):
         [['wx', 'wy', 'u2'], ['r', 'r']],           # one undo transaction undoing two transactions of different objects
         [['wx', 'u1', 'u1'], ['r', 'r', 'r']],      # undo of an undo
         [['cx'], ['wx', 'r']],                      # readCurrent dependency vs a commit
+        [['crb'], ['wx', 'r']],                     # ... declared before a savepoint that is rolled back to
         [['wa', 'wx'], ['r', 'co', 'r']],           # pooled connection reused across the other's commit
     ]
     pjobs = []
